@@ -339,6 +339,15 @@ func showCtrl(m ast.HSMSMessage) string {
 
 func implDec(b []byte) string {
 	var res string
+	// the input is handed over as a slice with spare capacity holding other bytes (as a reused
+	// receive buffer would): the decoder must not read beyond len(b)
+	buf := make([]byte, len(b), len(b)+48)
+	copy(buf, b)
+	spare := buf[len(b):cap(buf)]
+	for i := range spare {
+		spare[i] = byte(0x41 + i%7)
+	}
+	b = buf
 	pan, _ := safely(func() {
 		m, ok := hsms.Parse(b)
 		if !ok {
